@@ -261,18 +261,21 @@ def r_conv(ctx):
                         t = e.term
                         if arm == 'integer' and t[0] == 'bin' and t[1] == '+':
                             for a, b in ((t[2], t[3]), (t[3], t[2])):
+                                from .graph2 import _elemify
                                 if a[0] == 'bin' and a[1] == '*' and a[2][0] == 'v' and a[2][1] == e.name and _radix_ok(a[3], radix) \
-                                        and b[0] == 'iter':
+                                        and (b[0] == 'iter' or _elemify(b)[0] == 'iter'):
                                     ok = True
-                                elif a[0] == 'bin' and a[1] == '*' and a[2][0] == 'v' and a[2][1] == e.name and a[3][0] == 'c':
+                                elif a[0] == 'bin' and a[1] == '*' and a[2][0] == 'v' and a[2][1] == e.name and a[3][0] == 'c' \
+                                        and not _radix_ok(a[3], radix):
                                     why, wit = 'integer path multiplies by %s, radix is %d' % (show(a[3]), radix), True
                         if arm == 'string' and call_name(t) and call_name(t).endswith('.calculus_addition'):
                             num, base = call_arg(t, 0, 'number'), call_arg(t, 1, 'base')
                             if num is not None and call_name(num) and call_name(num).endswith('.calculus_multiplication'):
                                 mb = call_arg(num, 1, 'base')
                                 mn = call_arg(num, 0, 'number')
+                                from .graph2 import _elemify
                                 if _radix_ok(mb, radix) and mn[0] == 'v' and mn[1] == e.name and is_call(base, 'builtins.str') \
-                                        and base[2] and base[2][0][0] == 'iter':
+                                        and base[2] and (base[2][0][0] == 'iter' or _elemify(base[2][0])[0] == 'iter'):
                                     ok = True
                                 elif mb is not None and mb[0] == 'c' and not _radix_ok(mb, radix):
                                     why, wit = 'string path multiplies by %s, radix is %d' % (show(mb), radix), True
@@ -750,7 +753,8 @@ def r_shuf(ctx):
                 idx = tg[2] if tg[0] == 'sub' else None
                 if tg[0] == 'sub' and idx is not None and idx[0] == 'tuple' and len(idx) == 3 and \
                         idx[1] == ('slice', NONE, NONE, NONE) and idx[2][0] == 'c':
-                    cols.setdefault(idx[2][1], []).append((nd, val))
+                    c_ = idx[2][1]
+                    cols.setdefault(c_ + 4 if isinstance(c_, int) and -4 <= c_ < 0 else c_, []).append((nd, val))     # column -1 is column 3
                 elif tg[0] == 'sub' and idx is not None and idx[0] == 'tuple' and len(idx) == 3 and \
                         idx[1] == ('slice', NONE, NONE, NONE) and idx[2][0] == 'iter' and is_call(idx[2][1], 'builtins.range'):
                     # for j in range(1, 4): table[:, j] = j
@@ -957,8 +961,9 @@ def r_pair(ctx):
                 verdict_, cex_ = successor_verdict(idx[2][0], u, j, Kt)
                 if verdict_ is True:
                     good = recognised = True
-                elif verdict_ is None and not any(x[0] == 'bin' and x[1] in ('%', '*') for x in walk_term(tgt)):
-                    unclear_target = True       # not an arithmetic form at all (a call, a look-up): not decided here
+                elif verdict_ is None:
+                    unclear_target = True       # not an arithmetic form of (u, j, K) alone (a call, a look-up, len(scores) as the
+                                                # modulus): not decided here
             ok = good
             why = 'the deleted element is %s, not the successor (u*4 + j) mod 4^K of the cleared entry [u, j]' % show(tgt)[:100]
         else:
